@@ -73,6 +73,9 @@ type Scenario struct {
 	// identifier, which never fires); only denoms with bank metadata are burnt
 	BurnEpoch  string   `json:"burn_epoch,omitempty"`
 	BurnDenoms []string `json:"burn_denoms,omitempty"`
+	// PoolPricedElys: the native token has no oracle feed (as on the live chain); every price look-up for it falls
+	// back to the spot price of its best constant-product pool against the base currency
+	PoolPricedElys bool `json:"pool_priced_elys,omitempty"`
 }
 
 func DefaultScenario() Scenario {
